@@ -119,6 +119,8 @@ def apply(store, op):
             else:
                 o.modified = UNKNOWN if o.modified is not True else True
         else:
+            if not values and o.pristine:
+                return None     # an append of nothing to a list that still holds its defaults: whether that commits the defaults is not described
             o.values = o.values + list(values)
             if values:
                 o.modified = True
